@@ -831,6 +831,9 @@ class J1939_22:
         # pdu_specific is destination Address
         pgn_value = pgn.value & 0x1FF00
         dest_address = pgn.pdu_specific # may be Address.GLOBAL
+        if pgn.is_pdu2_format:
+            # pdu_specific is a group extension, not an address: always a broadcast
+            dest_address = ParameterGroupNumber.Address.GLOBAL
 
         # iterate all CAs to check if we have to handle this destination address
         if dest_address != ParameterGroupNumber.Address.GLOBAL:
